@@ -195,6 +195,25 @@ func merge[EntityT entity.Interface](def Definition, wrapper func(e *Entity) Ent
 		return entity.NewMergeUpdatedStatus(id, remoteEntity)
 	}
 
+	// Both histories must come from the same root commit. A remote history that only shares the
+	// first operation (hence the Id) with the local one is unrelated: a merge commit would join two
+	// roots, which can't be read back.
+
+	localCommitSet := make(map[repository.Hash]struct{}, len(localCommits))
+	for _, hash := range localCommits {
+		localCommitSet[hash] = struct{}{}
+	}
+	related := false
+	for _, hash := range remoteCommits {
+		if _, ok := localCommitSet[hash]; ok {
+			related = true
+			break
+		}
+	}
+	if !related {
+		return entity.NewMergeInvalidStatus(id, "the remote history is unrelated to the local one")
+	}
+
 	// SCENARIO 5
 	// if both local and remote Entity have new commits (that is, we have a concurrent edition),
 	// a merge commit with an empty operationPack is created to join both branch and form a DAG.
